@@ -75,6 +75,18 @@ def mser_common(ctx, module, theorems):
             lines.append('mser ' + ' '.join(GT.ty_tokens(c['ty'])) + ' | ' + ' '.join(GT.val_tokens(c['val'])))
             index.append((pi, ci))
     rc, model, err = run_lines(driver_path(), lines)
+    # fixed-size destinations: a second model stream
+    into_lines, into_index = [], []
+    for pi, pr in enumerate(progs):
+        for ci, c in enumerate(pr['cases']):
+            if c.get('fx'):
+                into_lines.append('mserinto ' + ' '.join(c['fx']['dst']) + ' | ' + ' '.join(GT.val_tokens(c['val'])) + ' | 0102030405060708')
+                into_index.append((pi, ci))
+    if into_lines:
+        rc2, into_model, err2 = run_lines(driver_path(), into_lines)
+        for (pi, ci), l, m in zip(into_index, into_lines, into_model + [''] * (len(into_lines) - len(into_model))):
+            progs[pi]['cases'][ci]['fx']['model'] = m
+            progs[pi]['cases'][ci]['fx']['line'] = l
     stats = {}
     for pr in progs:
         for k, v in pr['stats'].items():
@@ -96,7 +108,13 @@ def compare_case(pr, ci, modelline, fields):
         for kv in (ikv, mkv):
             kv['bytes'] = kv.get('bytes', '')[:20]
         ikv['size'] = mkv['size'] = '16' if ikv.get('size') == '16' else ikv.get('size')
-    diffs = [f for f in fields if ikv.get(f) != mkv.get(f)]
+    diffs = [f for f in fields if f != 'fx' and ikv.get(f) != mkv.get(f)]
+    fx = pr['cases'][ci].get('fx')
+    if 'fx' in fields and fx and ikv.get('fx') not in (None, 'NA'):
+        fkv = parse_kv(fx.get('model', ''))
+        mkv['fx'], mkv['fxtag'] = fkv.get('fx'), fkv.get('tag')
+        if ikv.get('fx') != fkv.get('fx') or ikv.get('fxtag') != fkv.get('tag'):
+            diffs.append('fx')
     return ikv, mkv, diffs
 
 
@@ -160,7 +178,9 @@ def check_c04(ctx):
     return run_mser_check(ctx, 'BinlogVerif.Props.C04', C04_THEOREMS, ['tag', 'size', 'bytes'], monitor_c04, RULE)
 
 
-C05_THEOREMS = ['BinlogVerif.C05.c05_roundtrip', 'BinlogVerif.C05.c05_truncation', 'BinlogVerif.C05.c05_no_overread']
+C05_THEOREMS = ['BinlogVerif.C05.c05_roundtrip', 'BinlogVerif.C05.c05_truncation', 'BinlogVerif.C05.c05_no_overread',
+                'BinlogVerif.C05.c05_into_roundtrip', 'BinlogVerif.C05.c05_into_mismatch', 'BinlogVerif.C05.c05_into_eq_decode',
+                'BinlogVerif.C05.c05_into_truncation']
 
 
 def monitor_c05(c, ikv, mkv):
@@ -179,13 +199,25 @@ def monitor_c05(c, ikv, mkv):
             return 'deserialization left %s bytes' % ikv.get(key + 'rest')
         if ikv.get(key + 'truncok') != '0':
             return '%s truncated inputs deserialized without an exception' % ikv.get(key + 'truncok')
+    fx = c.get('fx')
+    if fx and ikv.get('fx') not in (None, 'NA') and 'D' not in GT.py_tag(c['ty']):
+        got = ikv['fx']
+        if fx['fits']:
+            want = GT.py_encode(c['ty'], c['val']).hex() + '/8'
+            if got != want:
+                return 'deserialization into %s (every fixed size matches) did not return the value and leave the 8 following bytes: %s' % (fx['cxx'], got[:120])
+        elif not got.startswith('ERR:'):
+            return ('the fixed-size destination %s does not match the encoded size, but deserialization did not fail: it produced %s '
+                    '(value/bytes left of the 8 that follow)' % (fx['cxx'], got[:120]))
     return None
 
 
 def check_c05(ctx):
-    return run_mser_check(ctx, 'BinlogVerif.Props.C05', C05_THEOREMS, ['tag', 'bytes'], monitor_c05,
+    return run_mser_check(ctx, 'BinlogVerif.Props.C05', C05_THEOREMS, ['tag', 'bytes', 'fx'], monitor_c05,
                           RULE + '; each value is deserialized into the same type (when deserializable) and into an independently '
-                          'realised tag-compatible type, re-serialized and compared; every truncation point is tried under ASan')
+                          'realised tag-compatible type, re-serialized and compared; every truncation point is tried under ASan; values with a '
+                          'sequence are also deserialized, followed by 8 bytes of another value, into a destination in which sequence nodes are '
+                          'std::array<E,N> with matching or non-matching N (element-wise and batch element types)')
 
 
 C06_THEOREMS = ['BinlogVerif.C06.c06_tag_first_size', 'BinlogVerif.C06.c06_tag_pop', 'BinlogVerif.C06.c06_split_args',
@@ -212,7 +244,10 @@ def check_c06(ctx):
 
 
 C07_THEOREMS = ['BinlogVerif.C07.c07_render_refines', 'BinlogVerif.C07.c07_render_top', "BinlogVerif.C07.c07_render_top'",
-                'BinlogVerif.C07.c07_render_append', 'BinlogVerif.C07.c07_singular_render_const']
+                'BinlogVerif.C07.c07_render_append', 'BinlogVerif.C07.c07_singular_render_const',
+                'BinlogVerif.C07.c07_message', 'BinlogVerif.C07.c07_message_pp', 'BinlogVerif.C07.c07_printStruct_declines',
+                'BinlogVerif.C07.c07_read_back', 'BinlogVerif.C07.c07_end_to_end', 'BinlogVerif.C07.c07_latest_writerProp',
+                'BinlogVerif.C07.c07_latest_clockSync']
 
 
 def monitor_c07(c, ikv, mkv):
